@@ -69,8 +69,14 @@ PROPS = {
                      "recoverable_at_every_crash_point_in_rollback_linkfree_partial",
                      "file_recoverable_at_every_crash_point_in_rollback_linkfree_partial",
                      "recoverable_at_every_crash_point_in_rollback_healthy_linkfree_partial",
-                     "rollback_is_restore_then_cleanup", "restore_half_never_writes_backup", "cleanup_half_never_touches_base"],
-        "extra_modules": ["C02R"],
+                     "rollback_is_restore_then_cleanup", "restore_half_never_writes_backup", "cleanup_half_never_touches_base",
+                     "backup_copies_exact_linkfree_partial", "backup_dir_copies_exact_linkfree_partial",
+                     "original_intact_or_exactly_copied_linkfree_partial", "copy_never_overwritten_linkfree_partial",
+                     "backup_holds_only_exact_copies_linkfree_partial",
+                     "backup_copies_exact_at_every_crash_point_linkfree_partial",
+                     "exactly_recoverable_at_every_crash_point_in_rollback_linkfree_partial",
+                     "backup_holds_only_entries_at_paths_of_originals_linkfree_partial", "failed_copy_leaves_inexact_orphan"],
+        "extra_modules": ["C02R", "C02X"],
         "streams": [{"name": "hist", "quick": ["-n", "300"], "thorough": ["-n", "16000"]}],
         "assumptions": HIST_ASSUME,
     },
@@ -83,7 +89,13 @@ PROPS = {
         "assumptions": HIST_ASSUME + ["the reference side of transparent_linkfree_partial, Op.direct (Model/Direct.lean), is what the driver executes for the osmodel stream's commands, so it is compared with the real PrefixFS(OSFS) on every run", "reading adopted for RemoveAll below a file (ENOTDIR): counts as 'does not exist'"],
     },
     "C04": {
-        "theorems": ["newWithFS_wiring", "base_view_never_names_loc", "backup_view_confined_to_loc", "loc_is_hidden"],
+        "theorems": ["newWithFS_wiring", "base_view_never_names_loc", "backup_view_confined_to_loc", "loc_is_hidden",
+                     "rollback_restores_nested_linkfree_partial", "nested_is_newWithFS", "loc_mutators_refused", "loc_mutators_refused_depth1",
+                     "loc_readonly_refused", "loc_removeAll_nil", "loc_outcome_independent_of_content", "loc_rename_refused",
+                     "loc_symlink_target_refused", "loc_never_changed_by_base_side", "listing_omits_loc", "backup_side_confined_to_loc",
+                     "removeAll_of_ancestor_spares_loc", "rename_of_ancestor_refused", "loc_never_backed_up", "no_recursive_growth",
+                     "backup_holds_no_copy_of_loc", "refused_mkdir_backs_up_ancestors"],
+        "extra_modules": ["C04S"],
         "streams": [{"name": "hist", "quick": ["-n", "400"], "thorough": ["-n", "24000"]}, {"name": "layers", "quick": ["-n", "10000"]}, {"name": "listing"}],
         "assumptions": HIST_ASSUME + LAYER_ASSUME,
     },
